@@ -14,7 +14,7 @@ from harness.pool import pmap
 
 PROP = "C10"
 CLASSES = ["Elementwise", "Permute", "DropLead", "ResizeLead", "AddLead", "DropGridDim", "ReplaceOnGrid", "Remap", "Dual",
-           "Subset", "IndexGridDim", "Copy"]
+           "Subset", "IndexGridDim", "Copy", "ThroughDataset"]
 CONSTS = "CONSTANTS\n MaxDepth = %d\n Broken = %s\n EmitSucc = %s\n"
 BROKEN_CFG = "SPECIFICATION Spec\n" + CONSTS + "INVARIANT %s\nCHECK_DEADLOCK FALSE\n"
 MODEL_CFG = ("SPECIFICATION Spec\n" + CONSTS + "INVARIANT TypeOK\nINVARIANT IsUx\nINVARIANT GridDimsConsistent\nINVARIANT DataFollowsGrid\n"
@@ -129,7 +129,7 @@ def py_failed(ln, a, G, free, e):
     """Mirror of TraceUxOps!Clauses, used to decide how the replay continues and to cross-check the judge."""
     f = set()
     op = ln["op"]
-    own = op in X.OWN_OPS
+    own = X.base(op) in X.OWN_OPS
     if ln["out"] == "raised" or (ln["out"] == "refused" and not free) or (ln["out"] == "xr_refused" and own):
         f.add("Raises")
     if ln["val"] == "diff":
@@ -148,16 +148,16 @@ def py_failed(ln, a, G, free, e):
             f.add("GridDimsConsistent")
         if not all(ln["grid"] != 0 and d["size"] == ln["g"]["cnt"][d["k"]] for d in gd):
             f.add("GridDimsNumeric")
-    if op in X.FREE_OPS:
+    if X.base(op) in X.FREE_OPS:
         ok = len(ln["dims"]) == len(a["dims"]) and all(
             l["k"] == p["k"] and (p["k"] in X.GRID_KINDS or l["n"] == p["n"]) for l, p in zip(ln["dims"], a["dims"]))
         if not ok:
             f.add("DimsEffect")
     elif not free and kn(ln["dims"]) != kn(e["dims"]):
         f.add("DimsEffect")
-    if isux and (not a["al"] or (op in X.SELECT_OPS and len(ln["src"]) == len(ln["sel"]) and ln["src"] != ln["sel"])):
+    if isux and (not a["al"] or (X.base(op) in X.SELECT_OPS and len(ln["src"]) == len(ln["sel"]) and ln["src"] != ln["sel"])):
         f.add("DataFollowsGrid")
-    if op in X.COPY_OPS and not (a["grid"] in ln["g"]["eq"] and not ln["g"]["share"] and not ln["g"]["mem"] and not ln["g"]["leak"]):
+    if X.base(op) in X.COPY_OPS and not (a["grid"] in ln["g"]["eq"] and not ln["g"]["share"] and not ln["g"]["mem"] and not ln["g"]["leak"]):
         f.add("DeepCopyIndependent")
     if not free and not (e["name"] == "free" or (ln["name"] if ln["name"] != "other" else "free") == e["name"]):
         f.add("Name")
@@ -187,14 +187,14 @@ class Runner:
     def step(self, op, d, node, x, xp, reg, env, a, G):
         """Apply one operation to the real array and the plain mirror; return (line, result, plain result)."""
         hux_ = X.hux.import_ux()
-        own = op in X.OWN_OPS
+        own = X.base(op) in X.OWN_OPS
         free = node["free"]
         ln = {"op": op, "d": d, "out": "value", "val": "na", "src": [], "sel": []}
         r = rp = None
         err = perr = None
-        select = op in X.SELECT_OPS
+        select = X.base(op) in X.SELECT_OPS
         # a selection of FACES is exact (not inclusive): plain xarray's isel on the same data is the value oracle there too
-        use_oracle = (not own and op not in X.FREE_OPS) or (select and X.grid_dim(x) == "n_face")
+        use_oracle = (not own and X.base(op) not in X.FREE_OPS) or (select and X.grid_dim(x) == "n_face")
         if use_oracle:
             try:
                 rp = X.apply(op, d, xp)
@@ -273,7 +273,7 @@ class Runner:
                 struct_ok = ln["out"] == "value" and not (failed & {"IsUx", "SameGrid", "DimsEffect", "GridDimsConsistent", "GridDimsNumeric", "Name", "DataFollowsGrid", "ValuesAsXarray"})
                 if struct_ok:
                     nx, nxp = r, (rp if rp is not None else X.to_plain(r))
-                elif op not in X.OWN_OPS and op not in X.FREE_OPS and op not in X.COPY_OPS and rp is not None and e["grid"] <= len(reg.grids):
+                elif X.base(op) not in X.OWN_OPS and X.base(op) not in X.FREE_OPS and X.base(op) not in X.COPY_OPS and rp is not None and e["grid"] <= len(reg.grids):
                     nx, nxp = ux.UxDataArray(rp, uxgrid=reg.grids[e["grid"] - 1]), rp
                     reg2 = reg.clone()
                 if nx is not None:
@@ -380,7 +380,10 @@ def run(ctx):
     allops = None
     for line in rg.out.splitlines():
         if line.startswith('"<<\\"OPS\\"'):
-            allops = set(map(str, tlaval.parse(json.loads(line).replace("{", "<<").replace("}", ">>"))[1]))
+            _, ops_, base_ = tlaval.parse(json.loads(line).replace("{", "<<").replace("}", ">>"))
+            allops = set(map(str, ops_))
+            X.BASE.clear()
+            X.BASE.update({str(k): str(v) for k, v in base_.items() if str(k) != str(v)})
     if allops is None or ops_seen != allops:
         raise Machinery("vacuous model: operations never enabled within the depth: %s" % (sorted((allops or set()) - ops_seen),))
     memo = {}
@@ -406,12 +409,16 @@ def run(ctx):
                 if p:
                     add_path(tries[s], p)
     else:
-        quick_cap = int(os.environ.get("VERIF_C10_QUICK_CAP", "0"))
         for s in starts:
             tries[s] = full_trie(table, s, 2)
         ctx.exhaustive = True
-        if quick_cap:
-            pass
+        # budget: pairs that mix one dataset-level with one array-level operation are sampled 1 in 3 in the quick tier
+        # (all array x array pairs, all dataset x dataset pairs and every single operation stay exhaustive)
+        for s in starts:
+            for (op1, _d1), n1 in tries[s].items():
+                for k2 in sorted(n1["kids"]):
+                    if op1.startswith("ds_") != k2[0].startswith("ds_") and rng.random() >= 1.0 / 3.0:
+                        del n1["kids"][k2]
 
     # 2b. long programs from simulation (thorough)
     sim_programs = []
@@ -447,8 +454,8 @@ def run(ctx):
         kids = root = {}
         for (op, d, _, ea, eG, pa) in prog:
             gpos = [j for j, q in enumerate(pa["dims"]) if q["k"] in X.GRID_KINDS]
-            last_axis = op in (set(X.TOPO) | set(X.REMAP) | {"integrate", "gradient", "difference"})
-            free = op in X.FREE_OPS or (last_axis and not (gpos and gpos[0] == len(pa["dims"]) - 1))
+            last_axis = X.base(op) in (set(X.TOPO) | set(X.REMAP) | {"integrate", "gradient", "difference"})
+            free = X.base(op) in X.FREE_OPS or (last_axis and not (gpos and gpos[0] == len(pa["dims"]) - 1))
             n = new_node(free, ea, eG)
             kids[(op, d)] = n
             kids = n["kids"]
@@ -493,8 +500,8 @@ def run(ctx):
             cnt = sub_cnt if eG[ea["grid"] - 1]["kind"] == "subset" else base_cnt
             steps0.append({"op": op, "d": "-", "out": "value", "val": "eq", "cls": "Ux", "grid": ea["grid"], "name": "v",
                            "dims": [{"k": q["k"], "n": q["n"], "size": cnt[q["k"]] if q["k"] in X.GRID_KINDS else q["n"]} for q in ea["dims"]],
-                           "g": {"cnt": cnt, "eq": [1] if op in X.COPY_OPS else [], "share": [], "mem": [], "leak": []},
-                           "src": [0, 1] if op in X.SELECT_OPS else [], "sel": [0, 1] if op in X.SELECT_OPS else []})
+                           "g": {"cnt": cnt, "eq": [1] if X.base(op) in X.COPY_OPS else [], "share": [], "mem": [], "leak": []},
+                           "src": [0, 1] if X.base(op) in X.SELECT_OPS else [], "sel": [0, 1] if X.base(op) in X.SELECT_OPS else []})
             cur = skey(ea, eG)
         t = {"id": tid, "init": {"arr": a0, "grids": G0}, "steps": steps0, "pre_kinds": ["base"] * len(ops)}
         traces.append(t)
